@@ -1237,6 +1237,156 @@ func genRandom(rng *rand.Rand, idx int, hist bool) tcase {
 }
 
 // ---------------------------------------------------------------------------------------------
+// generator 3: several derivation cycles, one derived from the other
+//
+// 2-4 cycles of 1-3 identities each; a later cycle is usually DERIVED from an earlier one: one of
+// its members has a further base statement that names a member of the earlier cycle (so the lower
+// cycle lies in the closure of every member of the upper one, and is a cycle of its own all the
+// same).  Around them: identities derived from a cycle member, roots that a cycle member is based
+// on, now and then an undefined base on a cycle member.  Layouts: everything in one module | one
+// module per cycle | identities dealt out over 2-3 modules and their submodules.  Module names and
+// identity names are dealt out by a shuffle, so every order of the keys module:identity between
+// upper and lower cycles turns up.  Each cycle and each undefined base has to be reported by an
+// error of its own (Goyang.Spec.Identity.judgeReports).
+
+func genCycles(rng *rand.Rand, idx int) tcase {
+	layout := rng.Intn(3)
+	nCyc := 2 + rng.Intn(3)
+	nMods := 1
+	switch layout {
+	case 1:
+		nMods = nCyc
+	case 2:
+		nMods = 2 + rng.Intn(2)
+	}
+	modNames := []string{"ma", "mb", "mc", "md", "m-e", "Mf"}
+	rng.Shuffle(len(modNames), func(i, j int) { modNames[i], modNames[j] = modNames[j], modNames[i] })
+	var roots []*gRoot
+	var group []int
+	for m := 0; m < nMods; m++ {
+		roots = append(roots, &gRoot{Name: modNames[m], Prefix: fmt.Sprintf("x%d", rng.Intn(2))})
+		group = append(group, m)
+	}
+	if layout == 2 {
+		for m := 0; m < nMods; m++ {
+			if rng.Intn(2) == 0 {
+				sub := &gRoot{Name: "s-" + modNames[m], Sub: true, BelongsTo: modNames[m], Prefix: roots[m].Prefix}
+				roots[m].Includes = append(roots[m].Includes, sub.Name)
+				roots = append(roots, sub)
+				group = append(group, m)
+			}
+		}
+	}
+	names := append([]string(nil), namePool...)
+	names = append(names, "P1", "P2", "Q1", "Q2", "c1", "c2", "k", "zz")
+	rng.Shuffle(len(names), func(i, j int) { names[i], names[j] = names[j], names[i] })
+	type cid struct {
+		root  int
+		name  string
+		bases []string
+	}
+	var ids []cid
+	taken := map[string]int{} // names handed out per module group: equal names in different modules are fine
+	newID := func(root int) int {
+		g := group[root]
+		k := taken[fmt.Sprint(g)]
+		taken[fmt.Sprint(g)] = k + 1
+		// every group walks the shuffled pool from another offset: homonyms across modules are common,
+		// within a group the names are distinct (at most 16 identities per group, 24 names)
+		ids = append(ids, cid{root: root, name: names[(k+g*3)%len(names)]})
+		return len(ids) - 1
+	}
+	ref := func(from, to int) string {
+		fr := roots[ids[from].root]
+		if group[ids[from].root] == group[ids[to].root] {
+			if rng.Intn(2) == 0 {
+				return ids[to].name
+			}
+			return fr.Prefix + ":" + ids[to].name
+		}
+		target := roots[group[ids[to].root]]
+		for _, im := range fr.Imports {
+			if im.Name == target.Name {
+				return im.Prefix + ":" + ids[to].name
+			}
+		}
+		im := gImport{Name: target.Name, Prefix: fmt.Sprintf("i%d", len(fr.Imports))}
+		fr.Imports = append(fr.Imports, im)
+		return im.Prefix + ":" + ids[to].name
+	}
+	pickRoot := func(c int) int {
+		switch layout {
+		case 0:
+			return 0
+		case 1:
+			return c
+		}
+		return rng.Intn(len(roots))
+	}
+	var cycles [][]int
+	for c := 0; c < nCyc; c++ {
+		ln := 1 + rng.Intn(3)
+		var mem []int
+		home := pickRoot(c)
+		for k := 0; k < ln; k++ {
+			r := home
+			if layout == 2 && rng.Intn(3) == 0 {
+				r = rng.Intn(len(roots)) // a cycle that runs through several modules
+			}
+			mem = append(mem, newID(r))
+		}
+		cycles = append(cycles, mem)
+	}
+	for c, mem := range cycles {
+		for k, id := range mem {
+			ids[id].bases = append(ids[id].bases, ref(id, mem[(k+1)%len(mem)]))
+		}
+		if c > 0 && rng.Intn(8) != 0 {
+			// derived from an earlier cycle through a further base statement of one member
+			up := cycles[rng.Intn(c)]
+			id := mem[rng.Intn(len(mem))]
+			b := ref(id, up[rng.Intn(len(up))])
+			if rng.Intn(2) == 0 {
+				ids[id].bases = append(ids[id].bases, b)
+			} else {
+				ids[id].bases = append([]string{b}, ids[id].bases...) // written before the base that closes the cycle
+			}
+			if c > 1 && rng.Intn(4) == 0 { // and from a second one
+				up2 := cycles[rng.Intn(c)]
+				id2 := mem[rng.Intn(len(mem))]
+				ids[id2].bases = append(ids[id2].bases, ref(id2, up2[rng.Intn(len(up2))]))
+			}
+		}
+	}
+	nCycIds := len(ids)
+	for k, extra := 0, rng.Intn(4); k < extra; k++ {
+		t := rng.Intn(nCycIds)
+		id := newID(pickRoot(rng.Intn(nCyc)))
+		if rng.Intn(3) == 0 {
+			ids[t].bases = append(ids[t].bases, ref(t, id)) // a root that a cycle member is based on
+		} else {
+			ids[id].bases = append(ids[id].bases, ref(id, t)) // derived from a cycle member
+		}
+	}
+	if rng.Intn(5) == 0 {
+		t := rng.Intn(nCycIds)
+		ids[t].bases = append(ids[t].bases, []string{"nosuch", "zz:" + ids[t].name, roots[ids[t].root].Prefix + ":nosuch"}[rng.Intn(3)])
+	}
+	// the statements of one root in shuffled order
+	for _, k := range rng.Perm(len(ids)) {
+		roots[ids[k].root].Idents = append(roots[ids[k].root].Idents, gIdent{Name: ids[k].name, Bases: ids[k].bases})
+	}
+	if rng.Intn(2) == 0 {
+		t := rng.Intn(len(ids))
+		from := newID(ids[t].root) // only to write the reference from t's root; not declared
+		lf := gLeaf{Name: "l0", HasBase: true, Form: rng.Intn(4), Base: ref(from, t)}
+		roots[ids[t].root].Leaves = append(roots[ids[t].root].Leaves, lf)
+	}
+	rng.Shuffle(len(roots), func(i, j int) { roots[i], roots[j] = roots[j], roots[i] })
+	return tcase{Tag: fmt.Sprintf("cycles #%d", idx), Files: filesOf(roots), Runs: 3}
+}
+
+// ---------------------------------------------------------------------------------------------
 // seed cases (witnesses of the defects that were repaired, and the shapes the property names)
 
 func seedCases() []tcase {
@@ -1305,6 +1455,20 @@ func seedCases() []tcase {
 		mk("D3 cycle across modules",
 			`module m { namespace "urn:m"; prefix m; import n { prefix n; } identity a { base n:b; } }`,
 			`module n { namespace "urn:n"; prefix n; import m { prefix m; } identity b { base m:a; } }`),
+		mk("two cycles, the lower one derived from the upper one through a second base (across modules; upper sorts first)",
+			`module up { namespace "urn:up"; prefix u; identity P1 { base P2; } identity P2 { base P1; } }`,
+			`module zdown { namespace "urn:zdown"; prefix d; import up { prefix u; } identity Q1 { base Q2; base u:P1; } identity Q2 { base Q1; } }`),
+		mk("two cycles, the lower one derived from the upper one (across modules; lower sorts first)",
+			`module zup { namespace "urn:zup"; prefix u; identity P1 { base P2; } identity P2 { base P1; } }`,
+			`module down { namespace "urn:down"; prefix d; import zup { prefix u; } identity Q1 { base u:P2; base Q2; } identity Q2 { base Q1; } }`),
+		mk("self loop derived from a self loop, both name orders, one module",
+			`module m { namespace "urn:m"; prefix m; identity a { base a; } identity b { base b; base a; } identity z { base z; } identity y { base z; base m:y; } }`),
+		mk("chain of three cycles over module and submodule, a tail and an undefined base",
+			`module m { namespace "urn:m"; prefix m; include s; import n { prefix n; } identity c1 { base c2; } identity c2 { base c1; base n:k; } identity tail { base c1; } }`,
+			`submodule s { belongs-to m { prefix mm; } identity b1 { base b1; base mm:c2; base nosuch; } }`,
+			`module n { namespace "urn:n"; prefix n; identity k { base k2; } identity k2 { base k3; } identity k3 { base k; } }`),
+		mk("two disjoint cycles and a cycle derived from both",
+			`module m { namespace "urn:m"; prefix m; identity a { base b; } identity b { base a; } identity c { base c; } identity d { base e; base a; } identity e { base d; base c; } }`),
 		mk("D25 equal names in three modules",
 			`module i1 { namespace "urn:i1"; prefix i1; identity root; identity same { base root; } }`,
 			`module i2 { namespace "urn:i2"; prefix i2; import i1 { prefix x; } identity same { base x:root; } }`,
@@ -1408,8 +1572,9 @@ func specRequest(wire, goDump string) (string, bool) {
 	if len(parts) != 2 {
 		return "", false
 	}
-	nErr := len(strings.Fields(parts[1]))
-	return fmt.Sprintf("spec.ident %s |%s ; %d", wire, parts[0], nErr), true
+	// the errors themselves (hex tokens file:line:col:class): the specification says which cycles and
+	// which undefined bases have to be named by one
+	return fmt.Sprintf("spec.ident %s |%s ;%s", wire, parts[0], parts[1]), true
 }
 
 func decodeDump(d string) string {
@@ -1469,7 +1634,7 @@ func main() {
 		}
 	}
 	flag.Bool("child", false, "internal: run as Go-side worker")
-	streams := flag.String("streams", "all", "diagnosis: all | random (skip corpus, seeds and the small-graph enumeration)")
+	streams := flag.String("streams", "all", "diagnosis: all | random (skip corpus, seeds and the small-graph enumeration) | cycles (only the multi-cycle schemas)")
 	f := lib.ParseFlags()
 	if f.Replay != "" {
 		replay(f)
@@ -1481,7 +1646,7 @@ func main() {
 	var nNontrivial, nCases, nReqs int64
 	tags := map[string]int64{}
 	outcomes := map[string]int64{}
-	examined := 0
+	examined, concrete := 0, 0
 	var nDiskRan, nDiskFound, nDiskExcl int64
 	diskExclWhy := map[string]int64{}
 	var one *lib.Driver
@@ -1581,11 +1746,17 @@ func main() {
 				res.AddSample(map[string]any{"tag": tc.Tag, "files": tc.Files, "go": decodeDump(g[0]), "model": decodeDump(model)})
 			}
 			report := func(d lib.Disagreement) {
-				if examined >= 50 {
+				// at most 50 are recorded; beyond that, up to 20 more of those that come with a concrete
+				// failing input (specification violated), so that a flood of model/Go differences on
+				// which the specification is satisfied does not crowd them out
+				if examined >= 50 && !(d.SpecVerdict == "violates" && concrete < 20) {
 					res.Count("disagreements_not_examined", 1)
 					return
 				}
 				examined++
+				if d.SpecVerdict == "violates" {
+					concrete++
+				}
 				d.Input = tc
 				d.Replay = tc
 				res.AddDisagreement(d)
@@ -1714,7 +1885,7 @@ func main() {
 	first := append(corpusCases("corpus/C11"), seedCases()...)
 	nSeed := len(first)
 	small := enumerateSmall(3, 4, nil)
-	if *streams != "random" {
+	if *streams != "random" && *streams != "cycles" {
 		processBatch(append(first, small...))
 	}
 
@@ -1724,6 +1895,9 @@ func main() {
 	if f.Thorough() {
 		nRandom = 1200000
 		runs = 8
+	}
+	if *streams == "cycles" {
+		nRandom = 0
 	}
 	const batch = 60000
 	for lo := 0; lo < nRandom && examined < 50; lo += batch {
@@ -1737,10 +1911,26 @@ func main() {
 		processBatch(cases)
 	}
 
+	// ---- several cycles, one derived from the other
+	nCycles := 1500
+	if f.Thorough() {
+		nCycles = 60000
+	}
+	if examined < 50 {
+		cases := make([]tcase, 0, nCycles)
+		for i := 0; i < nCycles; i++ {
+			cases = append(cases, genCycles(f.Rand(3000000+i), i))
+		}
+		processBatch(cases)
+	}
+
 	// ---- histories: a newer revision of an identity-declaring (sub)module arrives between two Process calls
 	nHist := 6000
 	if f.Thorough() {
 		nHist = 200000
+	}
+	if *streams == "cycles" {
+		nHist = 0
 	}
 	for lo := 0; lo < nHist && examined < 50; lo += batch {
 		hi := min(lo+batch, nHist)
@@ -1757,7 +1947,10 @@ func main() {
 	if f.Thorough() {
 		nDiskRandom = 200000
 	}
-	if *streams != "random" {
+	if *streams == "cycles" {
+		nDiskRandom = 0
+	}
+	if *streams == "all" {
 		disk = append(disk, diskSeeds()...)
 		for k, tc := range seedCases() {
 			if v, ok := diskVariant(tc, f.Rand(7000000+k)); ok {
@@ -1788,13 +1981,14 @@ func main() {
 	res.Evaluations = nCases
 	res.DistinctNontrivial = nNontrivial
 	res.Exhaustive = true
-	res.Rule = "source sets = corpus + seed witnesses + COMPLETE enumeration of small graphs (all directed graphs incl. self-loops on <= 3 identities and all DAGs on 4 identities; every assignment of the identities to two roots; roots = two modules importing each other | module + included submodule; distinct names | equal names across the two modules; the two modules with different | the same own prefix; bases written with and without prefix; one identityref leaf) + seeded random schemas (1-3 modules, 0-3 submodules included directly / by another submodule / by a foreign module / by nobody / belonging to an absent module, include cycles, 1-12 identities with 0-3 bases, names from a pool with upper/lower case and punctuation, own prefixes from a pool of two (modules often share one), import prefixes independent and legal by default, rarely clashing, names reused across modules, revisions and revision-dates, cycles, dangling and unknown-prefix bases, duplicate statements, missing imports/includes, bases and identityrefs in submodules under a prefix that only the owner or a sibling submodule imports (also with the submodule binding that prefix to another module), identityref leaves, leaf-lists, unions of 1-4 identityrefs (homonymous identities of modules with one own prefix first; on leaf, leaf-list, behind typedef chains, over typedef'd members, in a used grouping) and typedef'd identityrefs) + seeded histories (such a schema, then a newer revision of a module or submodule that declares a referenced identity - also superseding an UNREVISIONED text, and often with an identity dropped or renamed -, with identityrefs of all four forms naming it). Every set: several fresh Modules under permuted load orders, all Go results must be equal, a second Process, a history on one Modules (part of the texts, Process, the rest, Process) and ToEntry-before-Process must end in the same result (identityref items name the identity OBJECT by the revision that declares it and carry the list seen through it); Go result = model result (under two map-order oracles); specification evaluated on the Go result. + files-on-disk cases (witnesses, the seed sets, all graphs on <= 2 and all DAGs on 3 identities of the small-graph space, seeded random schemas and histories; files named <module>[@<revision>].yang; per set up to five splits between 'handed to Parse' and 'lying in a directory on the search path, found by Process through an import or include': each single module alone (only the importer / only the declaring module), the modules nobody imports (tops of the import chains), all modules without their submodules, everything but one file; a submodule is handed over only with its module, and runs in which something is read after the linking walk - the shape of finding D04-P1 - are counted and not compared): the result of every such run must equal that of fresh Modules which are handed exactly the loaded texts, which in turn is compared with model and specification as for every other set. exhaustive refers to the small-graph space. distinct_nontrivial = distinct source sets whose Go result has an identity with a non-empty list or an identity/cycle error"
+	res.Rule = "source sets = corpus + seed witnesses + COMPLETE enumeration of small graphs (all directed graphs incl. self-loops on <= 3 identities and all DAGs on 4 identities; every assignment of the identities to two roots; roots = two modules importing each other | module + included submodule; distinct names | equal names across the two modules; the two modules with different | the same own prefix; bases written with and without prefix; one identityref leaf) + seeded random schemas (1-3 modules, 0-3 submodules included directly / by another submodule / by a foreign module / by nobody / belonging to an absent module, include cycles, 1-12 identities with 0-3 bases, names from a pool with upper/lower case and punctuation, own prefixes from a pool of two (modules often share one), import prefixes independent and legal by default, rarely clashing, names reused across modules, revisions and revision-dates, cycles, dangling and unknown-prefix bases, duplicate statements, missing imports/includes, bases and identityrefs in submodules under a prefix that only the owner or a sibling submodule imports (also with the submodule binding that prefix to another module), identityref leaves, leaf-lists, unions of 1-4 identityrefs (homonymous identities of modules with one own prefix first; on leaf, leaf-list, behind typedef chains, over typedef'd members, in a used grouping) and typedef'd identityrefs) + seeded multi-cycle schemas (2-4 derivation cycles of 1-3 identities, a later cycle usually derived from an earlier one through a further base statement of one member, tails, roots, now and then an undefined base; one module | one module per cycle | 2-3 modules with submodules; module and identity names dealt out by a shuffle so that every key order between upper and lower cycle occurs) + seeded histories (such a schema, then a newer revision of a module or submodule that declares a referenced identity - also superseding an UNREVISIONED text, and often with an identity dropped or renamed -, with identityrefs of all four forms naming it). Every set: several fresh Modules under permuted load orders, all Go results must be equal, a second Process, a history on one Modules (part of the texts, Process, the rest, Process) and ToEntry-before-Process must end in the same result (identityref items name the identity OBJECT by the revision that declares it and carry the list seen through it); Go result = model result (under two map-order oracles); specification evaluated on the Go result (lists, identityref targets, and the errors: every derivation cycle has to be named by a circular-derivation error at the identity statement of one of its members and every undefined base by an undefined-base error at the text that writes it). + files-on-disk cases (witnesses, the seed sets, all graphs on <= 2 and all DAGs on 3 identities of the small-graph space, seeded random schemas and histories; files named <module>[@<revision>].yang; per set up to five splits between 'handed to Parse' and 'lying in a directory on the search path, found by Process through an import or include': each single module alone (only the importer / only the declaring module), the modules nobody imports (tops of the import chains), all modules without their submodules, everything but one file; a submodule is handed over only with its module, and runs in which something is read after the linking walk - the shape of finding D04-P1 - are counted and not compared): the result of every such run must equal that of fresh Modules which are handed exactly the loaded texts, which in turn is compared with model and specification as for every other set. exhaustive refers to the small-graph space. distinct_nontrivial = distinct source sets whose Go result has an identity with a non-empty list or an identity/cycle error"
 	res.Distribution["by_generator"] = tags
 	res.Distribution["go_outcomes"] = outcomes
 	res.Distribution["seed_and_corpus_cases"] = nSeed
 	res.Distribution["small_graph_cases"] = len(small)
 	res.Distribution["random_cases"] = nRandom
 	res.Distribution["history_cases"] = nHist
+	res.Distribution["cycle_cases"] = nCycles
 	res.Distribution["go_runs_per_random_case"] = runs
 	res.Distribution["driver_requests"] = nReqs
 	res.Distribution["disk_cases"] = len(disk)
